@@ -9,6 +9,7 @@ import (
 
 // emitSession runs the case on the real server and writes case + observation.
 func emitSession(c *runCfg, cs *caseT) {
+	setInflight("(sess " + cs.id + " " + cs.class + " " + cs.sxHead() + ")")
 	o := runSession(cs)
 	c.out.line("(sess " + cs.id + " " + cs.class + " " + cs.sxHead() + " " + o.sx(isSSLRequest(cs.raw)) + ")")
 	c.stat("class_" + cs.class)
